@@ -274,7 +274,10 @@ func (c *wConn) readLoop() {
 		st := c.stalled
 		c.mu.Unlock()
 		if st {
-			<-c.resume
+			c.mu.Lock()
+			ch := c.resume
+			c.mu.Unlock()
+			<-ch
 			continue
 		}
 		var b []byte
@@ -489,5 +492,19 @@ func (w *WWorld) SendBurst(slot int, frames [][]byte) {
 		c.raw.Write(buf)
 		c.raw.SetWriteDeadline(time.Time{})
 	}()
+	w.wait()
+}
+
+// Unstall: the client resumes reading.
+func (w *WWorld) Unstall(slot int) {
+	if c := w.conns[slot]; c != nil {
+		c.mu.Lock()
+		if c.stalled {
+			c.stalled = false
+			close(c.resume)
+			c.resume = make(chan struct{})
+		}
+		c.mu.Unlock()
+	}
 	w.wait()
 }
